@@ -368,3 +368,26 @@ func (n *Node) Rollback(h uint64) error { return n.Ledger.Rollback(h) }
 func (n *Node) BalanceOf(addr *types.Address) *big.Int {
 	return new(big.Int).Set(n.Ledger.Copy().GetBalance(addr))
 }
+
+// ExecBlocksPipelined hands all blocks to the executor at once (as an orderer that is ahead of the
+// executor does) and then waits for the executed event of each: block h+1 is executed and flushed while
+// block h is still being persisted.
+func (n *Node) ExecBlocksPipelined(evs ...*pb.CommitEvent) error {
+	for _, ev := range evs {
+		n.Exec.ExecuteBlock(ev)
+	}
+	timer := time.NewTimer(ExecTimeout)
+	defer timer.Stop()
+	got := 0
+	for got < len(evs) {
+		select {
+		case e := <-n.evCh:
+			if e.Block.BlockHeader.Number == evs[got].Block.BlockHeader.Number {
+				got++
+			}
+		case <-timer.C:
+			return fmt.Errorf("no executed event for height %d within %v", evs[got].Block.BlockHeader.Number, ExecTimeout)
+		}
+	}
+	return nil
+}
